@@ -37,6 +37,10 @@ type Engine struct {
 	TimeoutMs   int
 	Redirects   map[string]string // callee -> replacement function (full names)
 	LogSMT      string            // directory for per-worker SMT transcripts ("" = off)
+	Params      map[string]int    // concrete instance parameters read by vparam()
+	Fresh       bool
+	SlowMs      int
+	SetLogic    string
 
 	infoMu sync.Mutex
 	info   map[*ssa.Function]*fnInfoT
@@ -50,11 +54,14 @@ type Engine struct {
 
 // Load type-checks and builds SSA for the given package patterns in dir, with overlay files.
 func Load(dir string, patterns []string, overlay map[string][]byte, tags string) (*Engine, error) {
+	if !strings.Contains(os.Getenv("PATH"), "/opt/veriftools/go1.26.8/bin") {
+		os.Setenv("PATH", "/opt/veriftools/go1.26.8/bin:"+os.Getenv("PATH"))
+	}
 	cfg := &packages.Config{
 		Mode:    packages.LoadAllSyntax,
 		Dir:     dir,
 		Overlay: overlay,
-		Env:     append(os.Environ(), "GOFLAGS=-mod=mod", "GOPROXY=off", "GOTOOLCHAIN=local", "CGO_ENABLED=0"),
+		Env:     append(os.Environ(), "GOFLAGS=-mod=mod", "GOPROXY=off", "GOTOOLCHAIN=local", "CGO_ENABLED=0", "PATH=/opt/veriftools/go1.26.8/bin:"+os.Getenv("PATH")),
 	}
 	if tags != "" {
 		cfg.BuildFlags = []string{"-tags=" + tags}
@@ -85,6 +92,7 @@ func Load(dir string, patterns []string, overlay map[string][]byte, tags string)
 		SolverBin:   "z3",
 		TimeoutMs:   30000,
 		Redirects:   map[string]string{},
+		Params:      map[string]int{},
 		info:        make(map[*ssa.Function]*fnInfoT),
 	}
 	for _, p := range prog.AllPackages() {
@@ -266,6 +274,10 @@ func (e *Engine) Run(h *ssa.Function, workers int) *Summary {
 		go func(w int) {
 			defer wg.Done()
 			sol, err := NewSolver(e.SolverBin, e.TimeoutMs)
+			if err == nil {
+				sol.Fresh = e.Fresh
+				sol.SetLogic = e.SetLogic
+			}
 			if err != nil {
 				mu.Lock()
 				sum.EngineError = err.Error()
